@@ -1,7 +1,9 @@
 #!/bin/bash
 # usage: lib/seedq.sh <PID> <M1|M2|ID> <name> <checks> [extra seed.py args]
-# Runs lib/seed.py of the committed snapshot /var/tmp/verif-snap (so that edits in /verif do not disturb it), two lanes,
-# results stored in /verif/seeded/<name>.
+# Runs lib/seed.py of the committed snapshot /var/tmp/verif-snap (so that edits in /verif do not disturb it): two lanes,
+# one job at a time per scratch worktree (the lane is a function of the worktree); results stored in /verif/seeded/<name>.
 pid=$1; m=$2; name=$3; checks=$4; shift 4
-lane=$(( $(echo -n "$name" | cksum | cut -d' ' -f1) % 2 ))
-( flock 9; cd /var/tmp/verif-snap && SEED_STORE=/verif/seeded python3 lib/seed.py "$pid" "$m" --name "$name" --checks "$checks" "$@" > /tmp/seed-$name.log 2>&1 ) 9>/tmp/seedq-$lane.lock &
+wt="/tmp/mut/$pid"; prev=""
+for a in "$@"; do [ "$prev" = "--wt" ] && wt="$a"; prev="$a"; done
+lane=$(( $(echo -n "$wt" | cksum | cut -d' ' -f1) % 2 ))
+( flock 9 && cd /var/tmp/verif-snap && SEED_STORE=/verif/seeded python3 lib/seed.py "$pid" "$m" --name "$name" --checks "$checks" "$@" > /tmp/seed-$name.log 2>&1 ) 9>/tmp/seedq-$lane.lock &
